@@ -129,6 +129,10 @@ opaque bloomFalsePositives : Nat → HashSet Path
 def bloom_new (n : Nat) : HashSet Path := bloomFalsePositives n
 /-- `Iterator::flatten` over `Result` items: the `Ok` ones -/
 def flatten (l : List α) : List α := l
+/-- `Option::ok_or_else` -/
+def ok_or_else (o : Option α) (f : Unit → Err) : Except Err α := match o with | some v => .ok v | none => .error (f ())
+/-- `Duration::ZERO` -/
+def DURATION_ZERO : Duration := 0
 /-- `std::io::Error::other(msg)` (the message is not modelled) -/
 def io_other (_msg : Str) : Err := .io
 /-- the text of an error message (never inspected by the program) -/
@@ -200,6 +204,10 @@ def splitLastAt (c : Char) (l : Str) : Option (Str × Str) :=
 /-- last component of a clean relative path text (no trailing `/`, no `.`/`..` components: the domain of the bisync
     paths, which come from `strip_prefix` of scanned files) -/
 def lastComponent (p : Path) : Str := match splitLastAt '/' p with | some (_, n) => n | none => p
+/-- `Path::file_name` of a path text: its last component; `None` for the empty path and for `..` -/
+def path_file_name (p : Path) : Option Str :=
+  let n := lastComponent p
+  if n.isEmpty || n = ['.', '.'] then none else some n
 /-- `Path::parent` on that domain: the text before the last `/`; the empty path for a single component; `None` for
     the empty path -/
 def parent (p : Path) : Option Path :=
